@@ -198,6 +198,22 @@ pub fn plan_for(prop: &str, tier: Tier, seed: u64, verif_dir: &str) -> Option<Pl
 			probes: vec![],
 			exhaustive: false,
 		},
+		"C14" => Plan {
+			property: "C14".into(),
+			tier,
+			seed,
+			jobs: vec![job("lnsim", "onionline", n(1500, 40000))],
+			level: "exploration".into(),
+			rule: "profile `onionline`: a line of 3-7 real nodes (one channel per link, all channel types, per-node fees and CLTV deltas drawn per run); payments over 1..n-1 hops in either direction, individually scheduled message delivery, asynchronous monitor persistence, occasional disconnects; per payment optionally exactly one forwarding hop is under-paid by 1 msat of fee or 1 block of CLTV delta (that hop must refuse), the recipient claims or fails back, and up to three update_add_htlc messages per run are altered in flight on a seeded hop (a bit of the 1300-byte hop data, a bit of the HMAC, the ephemeral key replaced, or a bit of the payment hash). Oracles: C14-1 every update_add_htlc a hop emits carries exactly the amount (C02-3 arithmetic) and the cltv_expiry the sender's route prescribes for that hop, and the last hop shows the payment claimable for the full amount; C14-2 an altered packet is refused by the node that receives it: no later hop ever emits an update_add_htlc for it and the recipient is never shown PaymentClaimable; C14-3 the sender's PaymentPathFailed names the channel of the failing hop: the altered link, the outgoing channel of the under-paid forwarder (retryable), or a permanent failure when the recipient refused. Not covered here (no schedule or fault in them): blinded tails, keysend/custom TLV sizes, maximum-length 20+-hop packets, hold-time attribution data. One evaluation = one seeded run (config, schedule and faults all drawn from the run seed; replay executes the recorded action trace). non-trivial = at least one payment reached a terminal event or one fault fired; distinct = distinct FNV hash of the executed (action kind, actor) sequence.".into(),
+			assumptions: t_assumptions.clone(),
+			probes: vec![
+				"onion_peeled_by_fifth_hop_or_later".into(),
+				"failure_after_corruption_attributed".into(),
+				"failure_at_chosen_forwarding_hop".into(),
+				"failure_by_recipient_attributed".into(),
+			],
+			exhaustive: false,
+		},
 		"C15" => Plan {
 			property: "C15".into(),
 			tier,
